@@ -22,6 +22,8 @@ import (
 	"os"
 	"runtime/debug"
 	"sort"
+	"strconv"
+	"strings"
 	"sync"
 	"testing"
 	"time"
@@ -114,6 +116,17 @@ func KnownActive(name string) bool {
 	return knownSet[name]
 }
 
+// envPath returns the file named by an environment variable; "%p" in it
+// stands for the process id (the native fuzzer runs a property in several
+// worker processes, each with files of its own).
+func envPath(name string) string {
+	p := os.Getenv(name)
+	if p == "" {
+		return ""
+	}
+	return strings.ReplaceAll(p, "%p", strconv.Itoa(os.Getpid()))
+}
+
 // ---------------------------------------------------------------------
 // statistics
 
@@ -134,6 +147,9 @@ type stats struct {
 }
 
 const maxHashes = 400000
+
+// flushEvery bounds what a killed process loses of its statistics.
+var flushEvery = 2 * time.Second
 
 var st = &stats{hashSet: map[uint64]bool{}, Labels: map[string]int{}, Known: map[string]int{}}
 
@@ -165,13 +181,13 @@ func (s *stats) record(js []byte, o *Outcome) {
 			}
 		}
 	}
-	if time.Since(s.lastFlush) > 2*time.Second {
+	if time.Since(s.lastFlush) > flushEvery {
 		s.flushLocked(false)
 	}
 }
 
 func (s *stats) flushLocked(done bool) {
-	path := os.Getenv("VERIF_STATS")
+	path := envPath("VERIF_STATS")
 	if path == "" {
 		return
 	}
@@ -203,7 +219,7 @@ func (s *stats) flush(done bool) {
 var journalFile *os.File
 
 func journal(js []byte) {
-	path := os.Getenv("VERIF_JOURNAL")
+	path := envPath("VERIF_JOURNAL")
 	if path == "" {
 		return
 	}
@@ -226,7 +242,7 @@ type failRecord struct {
 }
 
 func writeFail(id string, js []byte, o *Outcome) {
-	path := os.Getenv("VERIF_FAIL")
+	path := envPath("VERIF_FAIL")
 	if path == "" {
 		return
 	}
@@ -304,6 +320,34 @@ func Check[C any](t *testing.T, id string, gen func(*rapid.T) C, run func(C) *Ou
 			rt.Fatalf("VIOLATION %s %s: %s", id, o.Kind, o.Violation)
 		}
 	})
+}
+
+// Fuzz drives the same property with Go's native coverage-guided fuzzer: the
+// fuzz input is the bit stream that rapid's generators draw from
+// (rapid.MakeFuzz), so every mutated input still decodes into a structured
+// case, and the oracle inside run decides.  The runner gives each worker
+// process its own journal / statistics / failure file ("%p").
+func Fuzz[C any](f *testing.F, id string, gen func(*rapid.T) C, run func(C) *Outcome) {
+	st.Property = id
+	flushEvery = 500 * time.Millisecond // (fuzz workers are killed, not ended)
+	f.Fuzz(rapid.MakeFuzz(func(rt *rapid.T) {
+		c := gen(rt)
+		js, err := json.Marshal(c)
+		if err != nil {
+			rt.Fatalf("case not serialisable: %v", err)
+		}
+		journal(js)
+		o := guard(id, js, c, run)
+		st.record(js, o)
+		if o.Discard {
+			rt.Skip("discarded")
+		}
+		if o.Failed() {
+			writeFail(id, js, o)
+			st.flush(false)
+			rt.Fatalf("VIOLATION %s %s: %s", id, o.Kind, o.Violation)
+		}
+	}))
 }
 
 func replay[C any](t *testing.T, id string, run func(C) *Outcome) {
